@@ -202,7 +202,7 @@ impl View {
                 let mut out = Vec::new();
                 let mut k = Some(key.clone());
                 // never trust the count for allocation
-                for _ in 0..n.min(1 << 16) {
+                for _ in 0..n.min(1 << 9) {
                     let Some(kk) = k else { break };
                     out.push(c.get(&kk).cloned().unwrap_or_default());
                     k = next_key(kk);
